@@ -457,7 +457,8 @@ package iavl
 //@   callsite nodeDB).resetFirstVersion@2 [search-result-recorded] arg1 == latestVersion && firstVersion >= latestVersion
 //@   ensures [store-without-versions-stays-unknown] err == nil && calls("nodeDB).getLatestVersion") == 1 && L0 == 0 ==> v == 0
 //@   ensures [never-above-the-latest] err == nil && calls("nodeDB).getLatestVersion") == 1 && L0 <= 4611686018427387903 ==> v <= L0
-//@   modifies *
+//@   ensures [recorded] err == nil ==> ndb.firstVersion == v
+//@   modifies ndb.firstVersion, ndb.latestVersion, ndb.legacyLatestVersion
 
 //@ func (*nodeDB).getLatestVersion(ndb) (found, v, err)
 //@   props C14
